@@ -12,6 +12,9 @@
                  call/<method>/<args,…>/<callback returns,…>[/<script>]
   methods        push pop shift unshift slice splice indexOf lastIndexOf reverse join concat every some forEach map filter
                  reduce reduceRight sort sortNum sortInf toString toLocaleString (`name!` = non-callable first argument)
+                 toString.<mode>.<src>: mode ∈ call add str eq key (how toString is reached), src = the `join` of the receiver
+                 during the call (b own ownb nc und acc accb accn proto pdel none, see `joinSrc?`)
+  key tokens     k<hex bytes> | N<number token> (numeric subscript)
   objects        O<id>: 1…49 scripted (valueOf/toString/toLocaleString play the script; 7: toLocaleString not callable),
                  50…59 nested arrays [O(10+k), k, null, O(20+k)]
 -/
@@ -72,6 +75,7 @@ def keyOfBytes (b : List Nat) : Key :=
 def key? (t : String) : Option Key :=
   match t.toList with
   | 'k' :: r => (bytes? (String.ofList r)).map keyOfBytes
+  | 'N' :: r => (val? (String.ofList r)).map fun v => keyOfBytes (valToBytes v)     -- a numeric subscript: ToString (§11.2.1 step 6)
   | _ => none
 
 def tri? (t : String) : Option (Option Bool) :=
@@ -266,6 +270,48 @@ def specSide : Side :=
 def logOut (log : List (List Val)) : String :=
   if log.isEmpty then "" else "~" ++ ";".intercalate (log.reverse.map fun a => ",".intercalate (a.map valOut))
 
+/-- the `join` the harness gives the receiver for one call: (is it an accessor, what the value is) -/
+def joinSrc? : String → Option (Bool × JoinKind)
+  | "b" => some (false, .builtin)       -- untouched: Array.prototype.join
+  | "ownb" => some (false, .builtin)    -- own data property holding Array.prototype.join
+  | "own" => some (false, .user)        -- own data property holding a script function
+  | "proto" => some (false, .user)      -- the prototype's join replaced by a script function
+  | "nc" => some (false, .other)        -- own data property 5
+  | "und" => some (false, .other)       -- own data property undefined
+  | "none" => some (false, .other)      -- no join anywhere (array-likes, primitives)
+  | "pdel" => some (false, .other)      -- Array.prototype.join deleted
+  | "acc" => some (true, .user)         -- own accessor whose getter returns a script function
+  | "accb" => some (true, .builtin)     -- … Array.prototype.join
+  | "accn" => some (true, .other)       -- … 5
+  | _ => none
+
+/-- [[Class]] of ToObject(this) -/
+def classOf (tr : Val) (o : Obj) : List Nat :=
+  if o.isArr then "Array".toUTF8.toList.map (·.toNat) else
+  match tr with
+  | .str _ => "String".toUTF8.toList.map (·.toNat)
+  | .num _ => "Number".toUTF8.toList.map (·.toNat)
+  | .int _ => "Number".toUTF8.toList.map (·.toNat)
+  | .bool _ => "Boolean".toUTF8.toList.map (·.toNat)
+  | _ => "Object".toUTF8.toList.map (·.toNat)
+
+/-- how the harness reaches toString of an array other than by calling it (§8.12.8 [[DefaultValue]] with the untouched
+    Object.prototype.valueOf, which returns the object: the result is what toString returns if that is a primitive, a
+    TypeError otherwise), and what the surrounding expression makes of the primitive:
+    `add` = ""+a, `str` = String(a), `eq` = a=="x", `key` = ({x:"hit"})[a]. Harness semantics, the same on both sides. -/
+def viaPrimitive (mode : String) (r : Res St Ret) : Res St Ret :=
+  if mode = "call" then r else
+  match r with
+  | .err e s => .err e s
+  | .ok (.arr _) s => .err .type s
+  | .ok (.val (.obj _)) s => .err .type s
+  | .ok (.val .recv) s => .err .type s
+  | .ok (.val p) s =>
+    let str := valToBytes p
+    if mode = "eq" then .ok (.val (.bool (p == Val.str [120]))) s
+    else if mode = "key" then .ok (.val (if str = [120] then .str [104, 105, 116] else .undef)) s
+    else .ok (.val (.str str)) s
+
 /-- run one step; returns the outcome token and the new object -/
 def step (S : Side) (tr : Val) (o : Obj) (t : String) : Option (String × Obj) :=
   let fields := t.splitOn "/"
@@ -280,6 +326,19 @@ def step (S : Side) (tr : Val) (o : Obj) (t : String) : Option (String × Obj) :
     let w ← tri? w; let e ← tri? e; let c ← tri? c; let script ← script? sc
     match S.stDefine k ⟨v, w, e, c⟩ true { o := o, script := script, thisRaw := tr } with
     | .ok _ s => pure ("ok" ++ logOut s.log, s.o)
+    | .err e s => pure (errOut e ++ logOut s.log, s.o)
+  let callStep (m args rets script : String) : Option (String × Obj) := do
+    let rets ← vals? rets
+    let script ← script? script
+    -- `toString.<mode>.<src>`: how toString is reached and what `join` of the receiver is
+    let (m, mode, getter, kind) ← (match m.splitOn "." with
+      | [m] => some (m, "call", false, JoinKind.builtin)
+      | [m, mode, src] => (joinSrc? src).map fun (g, k) => (m, mode, g, k)
+      | _ => none)
+    let f ← S.method o.proto m args
+    match viaPrimitive mode (f { o := o, rets := rets, script := script, thisRaw := tr,
+                                 joinGetter := getter, joinKind := kind, cls := classOf tr o }) with
+    | .ok r s => pure (retOut r ++ logOut s.log, s.o)
     | .err e s => pure (errOut e ++ logOut s.log, s.o)
   match fields with
   | ["put", k, v] => putStep k v ""
@@ -307,19 +366,8 @@ def step (S : Side) (tr : Val) (o : Obj) (t : String) : Option (String × Obj) :
       | some n => pure ("L" ++ toString n, o)
       | none => pure ("ERangeError", o)
     | _ => pure ("L1", o)
-  | ["call", m, args, rets] => do
-    let rets ← vals? rets
-    let f ← S.method o.proto m args
-    match f { o := o, rets := rets, thisRaw := tr } with
-    | .ok r s => pure (retOut r ++ logOut s.log, s.o)
-    | .err e s => pure (errOut e ++ logOut s.log, s.o)
-  | ["call", m, args, rets, script] => do
-    let rets ← vals? rets
-    let script ← script? script
-    let f ← S.method o.proto m args
-    match f { o := o, rets := rets, script := script, thisRaw := tr } with
-    | .ok r s => pure (retOut r ++ logOut s.log, s.o)
-    | .err e s => pure (errOut e ++ logOut s.log, s.o)
+  | ["call", m, args, rets] => callStep m args rets ""
+  | ["call", m, args, rets, script] => callStep m args rets script
   | _ => none
 
 def runSteps (S : Side) (tr : Val) (o0 : Obj) : Obj → List String → List String → Option (List String × Obj)
